@@ -431,6 +431,20 @@ def part_walk(ctx):
     ctx.floor("R-WALK", "in-place ring walks", n + len([b for b in ctx.brokens if b["rule"] == "R-WALK"]), 2)
 
 
+def part_tol(pid):
+    def run(ctx):
+        from . import rules_tol
+        try:
+            n = rules_tol.check(ctx, module(CFG[0], "ssa"), CFG[0], reach(pid)[0] if pid in PROP_ENTRIES else None)
+        except AnalysisBroken as e:
+            ctx.broken("R-TOL", str(e))
+            n = 1
+        ctx.explanation += ("R-TOL: every tolerance with which vertex coordinates are declared equal (geoAlmostEqualThreshold, reachable from the property's entry points) is a "
+                            "constant below a quarter of the average res-15 edge in radians (from the library's own edge-length table and Earth radius). ")
+        ctx.floor("R-TOL", "coordinate-equality tolerances", n, 1)
+    return run
+
+
 def part_gate(ctx):
     from . import rules_gate
     n = rules_gate.check(ctx, module(CFG[0], "ssa"), CFG[0])
@@ -538,7 +552,7 @@ def C16(ctx):
                        "findPolygonForHole, addVertexNode, builders): scratch arrays freed on every path, no double free. R-OWN L2-L5: a local vertex "
                        "graph is destroyed on every path after initialisation (a failing initialiser destroys it itself), cellsToLinkedMultiPolygon "
                        "destroys the result before returning an error, normalizeMultiPolygon frees a hole it cannot place, and every struct type the "
-                       "builders allocate is freed in the call tree of destroyLinkedMultiPolygon / destroyVertexGraph.")
+                       "builders allocate is freed in the call tree of destroyLinkedMultiPolygon / destroyVertexGraph. R-TOL: the tolerance with which edge end points are matched (geoAlmostEqualThreshold) is a constant below a quarter of the average res-15 edge in radians.")
     for cfg in (["release", "assert"] if ctx.tier == "thorough" else ["release"]):
         m = module(cfg, "ssa")
         cg = rules_alloc.call_graph(m)
@@ -558,6 +572,11 @@ def C16(ctx):
             rules_linked.check_hole_loop(ctx, m, cfg)
         except AnalysisBroken as e:
             ctx.broken("R-OWN", "L7: %s" % e)
+        from . import rules_tol
+        try:
+            ctx.floor("R-TOL", "coordinate-equality tolerances (%s)" % cfg, rules_tol.check(ctx, m, cfg, fns | {"geoAlmostEqual"}), 1)
+        except AnalysisBroken as e:
+            ctx.broken("R-TOL", str(e))
     ctx.assumptions += ["allocation failure inside linkedGeo.c / vertexGraph.c is an assert (compiled out with NDEBUG): NULL results are not tested there, so only leak / double-free typestate applies",
                         "the outline itself (loop count, winding, area) is not decided: it depends on bit-level agreement of vertex coordinates and a float hash"]
 
